@@ -542,4 +542,80 @@ theorem read_written_subgraph (ts : List TensorD) (ci : OpInfo) (rcodes : List R
   simp only [hparse, hown, ho, hpo, ioIndices_written, hchk, bind, Except.bind, pure, Except.pure, List.append_nil, List.map_nil,
     Option.getD_some]
 
+/-! ## (f) all subgraphs -/
+
+structure SubOk (ts : List TensorD) (ci : OpInfo) (rcodes : List Reader.RCode) (codes : List Code) (bufs : List (Option Data))
+    (ps : PSub) (sg : SubGraphT) : Prop where
+  loc : SgLocal ts codes ps sg
+  len : sg.tensors.length = (sgAll ts ps).length
+  own : ∃ own, (sgAll ts ps).mapM (normTensorAt ts) = .ok own ∧ sg.tensors.mapM (Reader.parseTensor bufs) = .ok own
+  ops : ∀ p ∈ writtenOps ps, OpFacts ci rcodes codes p
+  inp : inputsNotProduced ps = true
+
+theorem read_written_subgraphs (ts : List TensorD) (ci : OpInfo) (rcodes : List Reader.RCode) (codes : List Code)
+    (bufs : List (Option Data)) (subs : List PSub) (sgs : List SubGraphT)
+    (h : List.Forall₂ (SubOk ts ci rcodes codes bufs) subs sgs) :
+    ∀ prev, Reader.readSubgraphs rcodes bufs sgs prev = normSubs ts ci subs prev := by
+  induction h with
+  | nil => intro prev; rfl
+  | cons hab _ ih =>
+    intro prev
+    obtain ⟨own, ho1, ho2⟩ := hab.own
+    unfold Reader.readSubgraphs normSubs
+    rw [read_written_subgraph ts ci rcodes codes bufs prev _ _ own hab.loc hab.len ho1 ho2 hab.ops hab.inp]
+    cases hn : normSub ts ci prev _ with
+    | error e => rfl
+    | ok r =>
+      simp only [bind, Except.bind]
+      rw [ih r.2]
+
+theorem positionsOf_ok (l : List Nat) : ∃ r, Reader.positionsOf (Reader.dedupNat l) l = .ok r := by
+  unfold Reader.positionsOf
+  apply mapM_of_pointwise
+  intro t ht
+  have : t ∈ Reader.dedupNat l := by unfold Reader.dedupNat; rw [mem_dedup]; exact ht
+  obtain ⟨i, hi, _⟩ := indexIn_of_mem _ t this
+  exact ⟨i, by simp only [hi]; rfl⟩
+
+theorem normSubs_ok (ts : List TensorD) (ci : OpInfo) (rcodes : List Reader.RCode) (codes : List Code)
+    (bufs : List (Option Data)) (subs : List PSub) (sgs : List SubGraphT)
+    (h : List.Forall₂ (SubOk ts ci rcodes codes bufs) subs sgs) :
+    ∀ prev, ∃ r, normSubs ts ci subs prev = .ok r := by
+  induction h with
+  | nil => intro prev; exact ⟨_, rfl⟩
+  | @cons ps sg _ _ hab _ ih =>
+    intro prev
+    obtain ⟨own, ho1, _⟩ := hab.own
+    obtain ⟨outs2, _, ho, _⟩ := hab.loc
+    unfold normSubs normSub
+    obtain ⟨pos, hpos⟩ := positionsOf_ok (renList (sgAll ts ps) prev.length outs2)
+    simp only [ho1, ho, hpos, bind, Except.bind, pure, Except.pure]
+    obtain ⟨r, hr⟩ := ih (prev ++ own)
+    rw [hr]
+    exact ⟨_, rfl⟩
+
+/-! ## (g) metadata -/
+
+theorem read_written_metadata (B : List (Option Data)) (metas : List MetaW) :
+    Reader.readMetadata (((B ++ metas.map (·.data)).map fun b => ({ data := b } : BufferT)).map Reader.parseBuffer)
+      (metas.zipIdx.map fun m => { name := some m.1.name, buffer := B.length + m.2 }) =
+    .ok (metas.map fun mw => { nameIsBytes := true, name := mw.name, data := normValues mw.data }) := by
+  unfold Reader.readMetadata
+  rw [mapM_map_ok (k := fun m : MetaW × Nat => some ({ nameIsBytes := true, name := m.1.name, data := normValues m.1.data } : MetaD))]
+  · simp only [bind, Except.bind, pure, Except.pure]
+    congr 1
+    rw [List.filterMap_map]
+    have : (metas.zipIdx.map Prod.fst) = metas := List.zipIdx_map_fst _ _
+    conv => rhs; rw [← this]
+    rw [List.map_map]
+    simp [Function.comp_def]
+  · intro m hm
+    have hg : metas[m.2]? = some m.1 := List.mem_zipIdx_iff_getElem?.mp hm
+    have hb : (((B ++ metas.map (·.data)).map fun b => ({ data := b } : BufferT)).map Reader.parseBuffer)[B.length + m.2]? =
+        some (normValues m.1.data) := by
+      simp only [List.getElem?_map, List.getElem?_append_right (Nat.le_add_right _ _), Nat.add_sub_cancel_left, hg, Option.map_some]
+      rfl
+    simp only [hb]
+    rfl
+
 end VelaVerif.Tflite.Roundtrip
